@@ -236,7 +236,7 @@ var atomPool = []string{
 	"\n", "\t", "a\nb", "\\", "\\\\", "'\\''", "\x00", "\x7f", "\x01", "\r", "\x1b", "\a", "\b", "\f", "\v",
 	// non-ASCII letters, non-letter Unicode
 	"é", "日本", "Ärger", "ǅ", "٣", "€", "😀", " ", "\u0085", " ", "​", "x€y", "é b", "À",
-	"$VAR", "end_of_file",
+	"$VAR", "end_of_file", "\U0010FFFF", "\U0010FFFE", "\uD7FF", "\uE000", "\uFFFF",
 }
 
 var specs = []string{"xfx", "xfy", "yfx", "fy", "fx", "xf", "yf"}
